@@ -214,9 +214,10 @@ Definition container_has_name (s : store) (c : option addr) (name : tok) : bool 
   match c with
   | None => false
   | Some ca =>
-      if is_uuid name then
-        match find_by_id s name (links (node_at s ca)) with Some _ => true | None => false end
-      else in_group s c name
+      match (if is_uuid name then find_by_id s name (links (node_at s ca)) else None) with
+      | Some _ => true
+      | None => in_group s c name
+      end
   end.
 
 Definition write_payload (a : addr) (dname : str) (d : list Z) : M unit :=
@@ -295,10 +296,19 @@ Definition api_create (ph : N) (c : ckind) (name type : tok) (payload : list Z) 
   | CMultiTags | CFeatures => fail EOther      (* created by their own calls below *)
   end.
 
-(* Container.__contains__(entity) on a block-level container: NAME only *)
+(* Container.__contains__(entity) on a block-level container: a member of that NAME exists and
+   carries the entity's ID *)
 Definition store_has_entity (s : store) (blk : addr) (c : ckind) (x : addr) : bool :=
   match entity_name s x with
-  | Some n => in_group s (child s blk (TS (cname c))) n
+  | Some n =>
+      if tok_has_slash n || tok_empty n then false
+      else match child s blk (TS (cname c)) with
+           | Some ca => match child s ca n with
+                        | Some y => opt_eqb tok_eqb (entity_id s y) (entity_id s x)
+                        | None => false
+                        end
+           | None => false
+           end
   | None => false
   end.
 
@@ -353,9 +363,13 @@ Definition container_get (s : store) (c : option addr) (k : key) (hsl : list han
                 | None => inr EIndex
                 end
   | KeyName t =>
-      if is_uuid t then match find_by_id s t ls with Some p => inl p | None => inr EKey end
-      else if tok_empty t || tok_has_slash t then inr EKey
-      else match link_get t ls with Some a => inl (t, a) | None => inr EKey end
+      (* get_by_id_or_name: an id first; a text that merely looks like an id falls back to the name *)
+      match (if is_uuid t then find_by_id s t ls else None) with
+      | Some p => inl p
+      | None =>
+          if tok_empty t || tok_has_slash t then inr EKey
+          else match link_get t ls with Some a => inl (t, a) | None => inr EKey end
+      end
   | KeyObj _ | KeyIdOf _ => inr EOther     (* resolved by the caller *)
   end.
 
@@ -376,8 +390,10 @@ Definition linklist_get (s : store) (c : option addr) (k : key) : (tok * addr) +
                 | None => inr EIndex
                 end
   | KeyName t =>
-      if is_uuid t then match link_get t ls with Some a => inl (t, a) | None => inr EKey end
-      else match find_by_name_attr s t ls with Some p => inl p | None => inr EKey end
+      match (if is_uuid t then link_get t ls else None) with
+      | Some a => inl (t, a)
+      | None => match find_by_name_attr s t ls with Some p => inl p | None => inr EKey end
+      end
   | KeyObj _ | KeyIdOf _ => inr EOther
   end.
 
@@ -584,6 +600,65 @@ Definition api_set_attr (ph : N) (a : akind) (v : option tok) (now : Z) : M unit
 Definition api_reopen (readonly : bool) : M N :=
   fun s => (mkSt (sto s) [mkH 0%nat KFile 0%nat 0%nat] (auto s) readonly (nid s), inl 0).
 
+(* ---- observation tokens (results of probes, the canonical walk) *)
+Inductive wtok := WN (n : Z) | WT (t : tok) | WNone.
+Definition w_opt_tok (o : option tok) : wtok := match o with Some t => WT t | None => WNone end.
+Definition b2w (b : bool) : wtok := WN (if b then 1 else 0).
+
+(* c[key] as tokens: 1, id of the member  /  2, error class *)
+Definition res_toks (s : store) (r : (tok * addr) + err) : list wtok :=
+  match r with
+  | inl (_, a) => [WN 1; w_opt_tok (entity_id s a)]
+  | inr e => [WN 2; WN (Z.of_N (err_code e))]
+  end.
+Definition zrange (lo : Z) (n : nat) : list Z := map (fun i => (lo + Z.of_nat i)%Z) (seq 0 n).
+
+(* the access paths of a Container: len, iteration, c[i] for i in [-len-1, len], and for every
+   member c[name], c[id], name in c, id in c *)
+Definition probe_container (s : store) (c : option addr) (hsl : list handle) : list wtok :=
+  let ls := cont_links s c in
+  let n := length ls in
+  WN (Z.of_nat n) :: map (fun p => w_opt_tok (entity_id s (snd p))) ls
+  ++ flat_map (fun z => res_toks s (container_get s c (KeyPos z) hsl)) (zrange (- Z.of_nat n - 1) (2 * n + 2))
+  ++ flat_map (fun p =>
+       match entity_name s (snd p), entity_id s (snd p) with
+       | Some nm, Some i =>
+           res_toks s (container_get s c (KeyName nm) hsl) ++ res_toks s (container_get s c (KeyName i) hsl)
+           ++ [b2w (container_has_name s c nm); b2w (container_has_name s c i)]
+       | _, _ => [WNone]
+       end) ls.
+
+(* LinkContainer.__contains__(str) *)
+Definition linklist_has (s : store) (c : option addr) (t : tok) : bool :=
+  let ls := cont_links s c in
+  match (if is_uuid t then link_get t ls else None) with
+  | Some _ => true
+  | None => match find_by_name_attr s t ls with Some _ => true | None => false end
+  end.
+Definition probe_linklist (s : store) (c : option addr) : list wtok :=
+  let ls := cont_links s c in
+  let n := length ls in
+  WN (Z.of_nat n) :: map (fun p => w_opt_tok (entity_id s (snd p))) ls
+  ++ flat_map (fun z => res_toks s (linklist_get s c (KeyPos z))) (zrange (- Z.of_nat n - 1) (2 * n + 2))
+  ++ flat_map (fun p =>
+       match entity_name s (snd p), entity_id s (snd p) with
+       | Some nm, Some i =>
+           res_toks s (linklist_get s c (KeyName nm)) ++ res_toks s (linklist_get s c (KeyName i))
+           ++ [b2w (linklist_has s c nm); b2w (linklist_has s c i)]
+       | _, _ => [WNone]
+       end) ls.
+
+Definition api_probe (ph : N) (c : ckind) : M (list wtok) :=
+  p <- the_handle ph ;;
+  guard (has_container (hk p) c) EOther ;;;
+  s <- get_st ;;
+  ret (probe_container (sto s) (child (sto s) (ha p) (TS (cgroup (hk p) c))) (hs s)).
+Definition api_probe_link (ph : N) (l : lkind) : M (list wtok) :=
+  p <- the_handle ph ;;
+  guard (has_list (hk p) l) EOther ;;;
+  s <- get_st ;;
+  ret (probe_linklist (sto s) (child (sto s) (ha p) (TS (lname l)))).
+
 (* ---- the operation alphabet of histories *)
 Inductive op :=
 | OCreate (p : N) (c : ckind) (name type : tok) (payload : list Z)
@@ -596,11 +671,13 @@ Inductive op :=
 | ORemove (p : N) (l : lkind) (k : key)
 | OSetLink (p : N) (r : rkind) (x : option N)
 | OSetAttr (p : N) (a : akind) (v : option tok)
+| OProbe (p : N) (c : ckind)
+| OProbeLink (p : N) (l : lkind)
 | OSetAuto (b : bool)
 | OReopen (readonly : bool).
 
 (* result of an op: ok (with the number of the new handle, if any) or an error class *)
-Inductive ores := ROk (h : option N) | RErr (e : err).
+Inductive ores := ROk (h : option N) | RToks (l : list wtok) | RErr (e : err).
 
 (* in a read-only session every failure counts as "refused because read-only" *)
 Definition err_in (s : st) (e : err) : err := if ro s then EReadOnly else e.
@@ -608,6 +685,9 @@ Definition wrapN (m : M N) : st -> st * ores :=
   fun s => match m s with (s', inl h) => (s', ROk (Some h)) | (s', inr e) => (s', RErr (err_in s e)) end.
 Definition wrapU (m : M unit) : st -> st * ores :=
   fun s => match m s with (s', inl _) => (s', ROk None) | (s', inr e) => (s', RErr (err_in s e)) end.
+
+Definition wrapT (m : M (list wtok)) : st -> st * ores :=
+  fun s => match m s with (s', inl l) => (s', RToks l) | (s', inr e) => (s', RErr (err_in s e)) end.
 
 Definition exec (o : op) (now : Z) : st -> st * ores :=
   match o with
@@ -621,6 +701,8 @@ Definition exec (o : op) (now : Z) : st -> st * ores :=
   | ORemove p l k => wrapU (api_remove p l k)
   | OSetLink p r x => wrapU (api_set_link p r x now)
   | OSetAttr p a v => wrapU (api_set_attr p a v now)
+  | OProbe p c => wrapT (api_probe p c)
+  | OProbeLink p l => wrapT (api_probe_link p l)
   | OSetAuto b => fun s => (mkSt (sto s) (hs s) b (ro s) (nid s), ROk None)
   | OReopen r => wrapN (api_reopen r)
   end.
